@@ -176,8 +176,9 @@ Authorised(c, o) ==
     [] o.op \in SelAdminOps -> S(c).admin /\ HasSel(c)
     [] o.op \in KeyOps -> HasSel(c) /\ Access(c, S(c).sel, o.k, KindOf(o.op))
     [] o.op \in SelOps -> HasSel(c)
-    [] o.op = "resolve" -> /\ HasSel(c)
-                           /\ Access(c, S(c).sel, o.k, "w")
+    [] o.op = "resolve" -> \* an administrator session (replication links are such) may resolve in any database
+                           IF S(c).admin THEN TRUE
+                           ELSE HasSel(c) /\ Access(c, S(c).sel, o.k, "w")
     [] OTHER -> TRUE
 
 -----------------------------------------------------------------------------
@@ -212,6 +213,18 @@ ConnsRight(SS, w) ==
            /\ IsNum(Val(w.dbs, d, "$connections"))
            /\ IntOf(Val(w.dbs, d, "$connections")) = OpenOn(SS, d) + SkewOf(d)
 
+(* watchers of $connections are told of every change of it: a session x receives one    *)
+(* changed / changed-version pair per database whose $connections value changed and that   *)
+(* x watches (x itself excluded when it is the session that just went away)               *)
+ConnChanged(w, d) == d \in DOMAIN w.dbs /\ d \in DOMAIN dbs /\ d # "$admin"
+                     /\ Has(w.dbs, d, "$connections")
+                     /\ (~Has(dbs, d, "$connections") \/ Val(dbs, d, "$connections") # Val(w.dbs, d, "$connections"))
+ConnNotesWithout(w, gone) ==
+  \A x \in (DOMAIN w.notes \cup UNION {{SubsOf(d, "$connections")[i] : i \in DOMAIN SubsOf(d, "$connections")} : d \in DOMAIN dbs}) \ {gone} :
+     LET n == Cardinality({d \in DOMAIN w.dbs : ConnChanged(w, d) /\ Count(SubsOf(d, "$connections"), x) > 0})
+     IN Len(NotesOf(w, x)) = 2 * n
+ConnNotes(w) == ConnNotesWithout(w, "#nobody")
+
 UseDb(c, o, w) ==
   /\ o.op = "use-db"
   /\ IF On("AUTH") THEN Success(w.cls) = TokenOK(o) ELSE TRUE
@@ -221,9 +234,7 @@ UseDb(c, o, w) ==
           /\ (On("READ") \/ On("AUTH")) =>
                 (UnchangedBut(w, o.d, {"$connections"}) /\ NoSideEffects(w))
           /\ ConnsRight(sess', w)
-          /\ (On("CONN") /\ o.d # "$admin" /\ Has(w.dbs, o.d, "$connections")) =>
-                ChangeNotesTo(w, SubsOf(o.d, "$connections"), "$connections",
-                              Val(w.dbs, o.d, "$connections"), -99)
+          /\ On("CONN") => ConnNotes(w)
      ELSE /\ UNCHANGED sess
           /\ (On("READ") \/ On("AUTH")) => (Unchanged(w) /\ NoSideEffects(w))
           /\ ConnsRight(sess, w)
@@ -242,9 +253,7 @@ Close(c, w) ==
   /\ (On("READ") \/ On("AUTH")) =>
         (UnchangedBut(w, S(c).sel, {"$connections"}) /\ NoSideEffects(w))
   /\ ConnsRight(sess', w)
-  /\ (On("CONN") /\ S(c).sel \notin {"-", "$admin"} /\ Has(w.dbs, S(c).sel, "$connections")) =>
-        ChangeNotesTo(w, SelectSeq(SubsOf(S(c).sel, "$connections"), LAMBDA x : x # c),
-                      "$connections", Val(w.dbs, S(c).sel, "$connections"), -99)
+  /\ On("CONN") => ConnNotesWithout(w, c)
   /\ dbs' = w.dbs
   /\ mx' = MxAfter(w)
 
